@@ -60,6 +60,10 @@ claimed = {
    text="Bounded exhaustive model checking: all arrays of 0..3 (thorough: 4) objects {id,k,j} with k, j over {missing,1,2,3} or {missing,a,b,B} x all sort specifications of 1-2 terms (thorough: 3) over 6 key expressions (member, second member, $-relative, sum, negation, constant) x {default,<,>}; ALL 2^n two-valued key patterns for n = 13, 14 (thorough: ..18) - every tie pattern beyond the length where an unstable library sort is still accidentally stable - sorted ascending, descending, with a constant second term and through $sort with a comparator; one foreign key value (boolean, array, object, string among numbers...) at every position for the error clause; $sort on all number/string arrays of length <=5 (6) over 3 values and with 5 comparators. Oracle on the implementation's own result: id multiset preserved, adjacent pairs ordered by the key tuple with absent keys last and per-term direction, equal tuples in input order; plus equality with a reference stable insertion sort and the predicted error class.",
    note="Trusted: the reference sort (mc/ref/sort.go) and the direct checks in mc/props/c13.go. Arrays longer than 18 items and key domains larger than 4 values are outside the bound ('random arrays up to 200 items' of the quantifier is not claimed).",
    technique="explicit enumeration of all small keyed arrays x sort specifications and of all tie patterns of length 13-18 (stateless DFS) with permutation/order/stability oracles", design="§5 C13", engine=E1),
+ "C15": dict(
+   text="Bounded exhaustive model checking: all arrays of length 0..4 (thorough: 5) over a kind-mixing domain (1, \"1\", true, [1], {a:1}, and from length 4 also 2, {a:\"1\"}, [[1]], \"a\"), scalars in array position and empty arrays (missing argument), crossed with $map/$filter/$single x 12 callbacks (lambdas of arity 0..4 exposing value/index/array, a callback returning nothing, built-ins, a partial and a chain as callbacks), $reduce (non-commutative fold, with/without seed, wrong-arity functions), $append/$reverse/$zip (2 and 3 arguments, unequal lengths, missing arguments)/$count over pairs of arrays, $distinct (kind-sensitive, first occurrence), $shuffle (permutation), aggregates over all number arrays over {0,1,-2,0.5,1e308} incl. overflow, one foreign member at every position, scalars and the literal empty array, and compositions that use the operand again after the function was applied - each compared with reference definitions written from the statement.",
+   note="Trusted: the reference definitions in mc/props/c15.go and ref.DeepEqual/Truthy/StringOf. Arrays longer than 5 and values outside the domain are not covered; for $distinct of a scalar both the scalar and the one-member array are accepted (statement: 'counts as a one-member array').",
+   technique="explicit enumeration of all small arrays x call shapes x callbacks (stateless DFS) vs reference definitions", design="§5 C15", engine=E1),
 }
 pending_reason = "check not built yet in this session (planned, see DESIGN.md §5)"
 
